@@ -14,6 +14,7 @@
   K17-files ties the first two to the real loader on arbitrary bytes: after every round of damage, the number of objects the library finds
   equals the number of files `loadsValid` accepts.
 -/
+import Shm.Model.MutexLife
 import Shm.Props.C16
 import Shm.Lemmas.ModesLemmas
 import Shm.Model.Wrap
@@ -199,3 +200,23 @@ example : (load ("log.level = DEBUG\n=\x00junk\nlog.level = INFO\nslots.removabl
 example : parseLine ("slots.removable\t=  true # as shipped\n".toUTF8.toList) = some ("slots.removable".toUTF8.toList, "true".toUTF8.toList) := by decide +kernel
 
 end Shm.Pure.Config
+
+/-! ### the library's mutexes across C_Initialize / C_Finalize (model: Shm/Model/MutexLife.lean; tie: K17-conf with the three locking flavours and `nop mxstat`) -/
+namespace Shm.C17
+
+/-- **No mutex is ever locked or destroyed by mutex functions other than the ones that created it, and none survives outside an initialised period** - for every history of
+    C_Initialize (locking disabled, OS locking, application callbacks; succeeding or failing behind the creation of the singletons), C_Finalize and other calls.
+    This is the code as repaired by `fix: a failed C_Initialize releases the singletons it created`. -/
+theorem C17_mutex_functions_never_mixed (ops : List Shm.MutexLife.Op) :
+    (Shm.MutexLife.run true ops {}).misuse = 0 ∧ ((Shm.MutexLife.run true ops {}).initialised = false → (Shm.MutexLife.run true ops {}).singletons = [] ∧ (Shm.MutexLife.run true ops {}).managers = []) :=
+  let h := Shm.MutexLife.run_inv ops {} Shm.MutexLife.init_inv
+  ⟨h.1, h.2.1⟩
+
+/-- the same history on the pinned tree (failure keeps the singletons): the registry's mutex, made by the application's callbacks, is locked by the OS functions -/
+theorem C17_pinned_tree_mixed_mutex_functions : (Shm.MutexLife.run false [.init .app false, .init .os true, .work] {}).misuse > 0 := Shm.MutexLife.pinned_tree_misuses
+
+/-- non-vacuity: a history with two failures, three flavours and work in between ends with nothing alive -/
+example : (Shm.MutexLife.run true [.init .app false, .init .os true, .work, .fini, .init .none false, .init .app true, .work, .fini] {}).singletons = [] := by decide
+
+end Shm.C17
+
